@@ -6,13 +6,18 @@ prove:       ClaripyProofs.Props.C20 (every cell classified; memo stores are tra
 correspond:  the classification is audited on the live process: cells classified readOnlyAfterImport are unchanged by a workload,
              memo caches hold values that are functions of their keys (recomputed), threadLocal cells differ per thread
 oracle:      2..16 threads run random solver histories concurrently (own solvers, shared expression pool, varied switch interval);
-             every answer is compared with a solo replay of the same history
+             every answer is compared with a solo replay of the same history; the histories also pin floating-point variables to
+             constants of both signs and evaluate floating-point expressions (answers compared as bit patterns, NaN-aware)
+             + lib/c20_stages.py: "fresh-truth" rounds (is_true/is_false about formulas new in the round that only Z3 decides, solo
+             reference from a fresh interpreter because the verdicts are memoised process-wide) and "gated out-parameters" (two
+             threads held after every z3 out-parameter call until the other has made the same call - deterministic)
 """
 import collections, copy, os, sys, threading
 
 import claripy
 
 from lib import exprs as E
+from lib import c20_stages as ST
 from lib.common import LEAN, write_if_changed
 import translate_shared as ts
 
@@ -20,7 +25,32 @@ THEOREMS = ["Claripy.Props.C20.C20_all_classified", "Claripy.Props.C20.C20_inter
             "Claripy.Props.C20.serve_spec", "Claripy.Props.C20.run_inv"]
 
 
+class Pool:
+    """shared expressions of a round: exprs/cons (4-bit vectors, Booleans), fvars/fexprs/fconsts (floating point)"""
+
+    def __init__(self, exprs, cons):
+        self.exprs, self.cons = exprs, cons
+        self.fvars, self.fexprs, self.fconsts, self.sort = [], [], [], None
+
+
+FP_CONSTS = [1.5, -1.5, 2.75, -2.75, 0.0, -0.0, float("inf"), float("-inf"), 1e-40, -1e-40, 3.0e38, -3.0e38, 0.1, -0.1, 6.0, -6.0]
+
+
 def make_pool(rng, tag):
+    exprs, cons = make_bv_pool(rng, tag)
+    pool = Pool(exprs, cons)
+    # floating point: two variables of one sort; constants of both signs (zeros, infinities, a float32 subnormal)
+    pool.sort = rng.choice([claripy.FSORT_FLOAT, claripy.FSORT_DOUBLE])
+    f, g = [claripy.FPS("%s_%s" % (tag, n), pool.sort, explicit_name=True) for n in "fg"]
+    pool.fvars = [f, g]
+    pool.fconsts = [rng.choice(FP_CONSTS) if rng.random() < 0.7 else rng.choice([-1.0, 1.0]) * rng.randrange(1, 1000) / 8.0 for _ in range(6)]
+    # (expression, indices of the variables it reads)
+    pool.fexprs = [(f, {0}), (g, {1}), (-f, {0}), (claripy.fpAbs(g), {1}), (f + g, {0, 1}), (f * g, {0, 1}), (f - g, {0, 1}),
+                   (claripy.fpToIEEEBV(f), {0}), (g.raw_to_bv(), {1}), (claripy.fpNeg(g) + claripy.FPV(1.0, pool.sort), {1})]
+    return pool
+
+
+def make_bv_pool(rng, tag):
     """shared expression pool over three 4-bit variables and a Boolean"""
     w = 4
     xs = [claripy.BVS("%s_%s" % (tag, n), w, explicit_name=True) for n in "abc"]
@@ -43,10 +73,24 @@ def make_pool(rng, tag):
     return exprs, cons
 
 
-def gen_history(rng, exprs, cons, n):
+def gen_history(rng, pool, n):
+    exprs, cons = pool.exprs, pool.cons
     h = []
+    pinned = set()
     for _ in range(n):
         r = rng.random()
+        if rng.random() < 0.14:
+            # floating point: pin a variable to a constant, or evaluate an expression whose variables are all pinned (its set of
+            # values is then complete within the asked number, hence a function of the history and not of the models Z3 picks)
+            free = [i for i in range(len(pool.fvars)) if i not in pinned]
+            ready = [i for i, (e, vs) in enumerate(pool.fexprs) if vs <= pinned]
+            if free and (not ready or rng.random() < 0.45):
+                i = rng.choice(free)
+                pinned.add(i)
+                h.append(("fpin", i, rng.randrange(len(pool.fconsts))))
+            elif ready:
+                h.append(("fbatch",) if len(free) == 0 and rng.random() < 0.2 else ("feval", rng.choice(ready)))
+            continue
         if r < 0.3:
             h.append(("add", rng.randrange(16)))
         elif r < 0.4:
@@ -70,8 +114,9 @@ def gen_history(rng, exprs, cons, n):
     return h
 
 
-def run_history(cls, exprs, cons, hist):
+def run_history(cls, pool, hist):
     """-> list of canonical answers"""
+    exprs, cons = pool.exprs, pool.cons
     if hist and hist[0] == "family":
         return run_family_history(cls, exprs, cons, hist[1], lambda t, fn: fn())
     s = cls()
@@ -102,6 +147,13 @@ def run_history(cls, exprs, cons, hist):
             elif op[0] == "build":
                 e = (exprs[op[1]] + exprs[op[2]]) ^ exprs[op[1]]
                 out.append((e.length, tuple(sorted(e.variables)), e.depth))
+            elif op[0] == "fpin":
+                s.add(pool.fvars[op[1]] == claripy.FPV(pool.fconsts[op[2]], pool.sort)); out.append("ok")
+            elif op[0] == "feval":
+                # a pinned variable has at most two values (the two zeros), an expression over both at most four
+                out.append(ST.canon_values(s.eval(pool.fexprs[op[1]][0], 8)))
+            elif op[0] == "fbatch":
+                out.append(ST.canon_values([tuple(v) for v in s.batch_eval([e for e, vs in pool.fexprs[:2]], 8)]))
         except claripy.errors.UnsatError:
             out.append("UnsatError")
         except claripy.errors.ClaripyError as ex:
@@ -183,7 +235,10 @@ def run(ctx):
     ]
     ctx.cov["rule"] = ("cases = rounds of T threads (2..16), each thread running a random history of 12..40 solver operations on its own Solver/"
                        "SolverComposite/SolverCacheless over a pool of shared expressions; non-trivial = round with at least two threads issuing Z3 queries; "
-                       "distinct = (round, thread); half of the threads work on a family (a solver and its branches, with simplify/downsize)")
+                       "distinct = (round, thread); half of the threads work on a family (a solver and its branches, with simplify/downsize); "
+                       "the other histories also pin two floating-point variables to constants of either sign and evaluate floating-point expressions; "
+                       "+ fresh-truth rounds (2..12 threads asking is_true/is_false about formulas new in the round, solo reference from a fresh "
+                       "interpreter) + gated pairs (two threads, every z3 out-parameter call of one held until the other has made the same call)")
     tie_ok = True
     try:
         cells = ts.translate()
@@ -210,12 +265,14 @@ def run(ctx):
     old_interval = sys.getswitchinterval()
     total_threads = 0
     mismatches = 0
+    fp_ops = 0
     try:
         for r in range(rounds):
             T = rng.choice([2, 2, 3, 4, 8]) if not ctx.thorough() else rng.choice([2, 3, 4, 8, 12, 16])
             sys.setswitchinterval(rng.choice([1e-6, 1e-5, 1e-4, 5e-3]))
-            exprs, cons = make_pool(rng, "r%d" % r)
-            hists = [gen_history(rng, exprs, cons, rng.choice([12, 24, 40])) if rng.random() < 0.5 else
+            pool = make_pool(rng, "r%d" % r)
+            exprs, cons = pool.exprs, pool.cons
+            hists = [gen_history(rng, pool, rng.choice([12, 24, 40])) if rng.random() < 0.5 else
                      ("family", gen_family_history(rng, exprs, cons, rng.choice([12, 24, 40]))) for _ in range(T)]
             classes_ = [rng.choice([claripy.Solver, claripy.Solver, claripy.SolverComposite, claripy.SolverCacheless]) for _ in range(T)]
             # workers analysing the same thing: some threads run the very same history (on their own solver objects) at the same time
@@ -230,7 +287,7 @@ def run(ctx):
             def work(i):
                 try:
                     barrier.wait(timeout=180)
-                    results[i] = run_history(classes_[i], exprs, cons, hists[i])
+                    results[i] = run_history(classes_[i], pool, hists[i])
                 except BaseException as ex:  # noqa
                     errors[i] = repr(ex)
             threads = [threading.Thread(target=work, args=(i,)) for i in range(T)]
@@ -243,7 +300,8 @@ def run(ctx):
                 ctx.count()
                 total_threads += 1
                 ctx.distinct((r, i))
-                solo = run_history(classes_[i], exprs, cons, hists[i])
+                fp_ops += sum(1 for o in hists[i] if isinstance(o, tuple) and o[0] in ("feval", "fbatch"))
+                solo = run_history(classes_[i], pool, hists[i])
                 if errors[i] is not None or results[i] is None:
                     ctx.violation("C20/thread-crashed/%s" % classes_[i].__name__, "thread %d of %d crashed: %s" % (i, T, errors[i]),
                                   {"round": r, "threads": T, "history": hists[i], "error": errors[i]})
@@ -251,7 +309,7 @@ def run(ctx):
                 if results[i] != solo:
                     k = next(j for j in range(len(solo)) if results[i][j] != solo[j])
                     # re-check solo determinism before blaming concurrency
-                    solo2 = run_history(classes_[i], exprs, cons, hists[i])
+                    solo2 = run_history(classes_[i], pool, hists[i])
                     if solo2 != solo:
                         ctx.notes.append("solo replay itself is not deterministic for %s at step %d" % (classes_[i].__name__, k))
                         continue
@@ -266,6 +324,10 @@ def run(ctx):
                 ctx.sample({"threads": T, "history": [list(o) if isinstance(o, tuple) else o for o in (hists[0][1] if hists[0][0] == "family" else hists[0])[:10]], "answers": [repr(a) for a in (results[0] or [])[:10]]})
     finally:
         sys.setswitchinterval(old_interval)
+    # ---- directed stages (lib/c20_stages.py)
+    scale = 3 if ctx.broken else 1
+    truth_cov = ST.truth_stage(ctx, ctx.pick(8, 40) * scale)
+    gated_cov = ST.gated_stage(ctx, ctx.pick(16, 80) * scale)
     # readOnlyAfterImport cells unchanged by the workload
     now = {"opposites": dict(ops.opposites), "op_map": dict(bz.op_map), "infix": dict(ops.infix), "simplifiers": dict(claripy.simplifications._all_simplifiers)}
     for k in snap:
@@ -306,11 +368,16 @@ def run(ctx):
             if bool(fresh) != bool(v):
                 ctx.tie_broken("corr:memo:_true_cache", "cached %r for %r, recomputed %r" % (v, a, fresh)); break
     ctx.cov["traces_validated_against_impl"] = total_threads
-    ctx.cov["input_distribution"] = {"rounds": rounds, "thread_runs": total_threads, "memo_entries_audited": audited}
+    ctx.cov["input_distribution"] = {"rounds": rounds, "thread_runs": total_threads, "memo_entries_audited": audited,
+                                     "fp_operations_in_histories": fp_ops, "fresh_truth": truth_cov, "gated_out_parameters": gated_cov}
 
 
 def replay(ctx, obj):
     r = obj["replay"]
+    if r.get("kind") == "fresh-truth":
+        return ST.replay_truth(r)
+    if r.get("kind") == "gated":
+        return ST.replay_gated(r)
     print("concurrency failures depend on the schedule; the recorded history is replayed solo and with 8 identical threads")
     print(r.get("class"), r.get("history"))
     return 1
